@@ -566,6 +566,39 @@ theorem oversized_close_nothing (n posQty oldQty tc : Int) (isBuy : Bool) :
     simp only
     rw [if_pos (by omega)]
 
+/-- **a futures request of less than one lot creates nothing** (C15.5): the lot count is truncated toward zero before the
+zero test, so `buy_open(x, 0.5)` is "0 order quantity" -/
+theorem fut_fraction_below_one_nothing (a : R) (isBuy : Bool) (e : Effect) (posQty oldQty tc : Int)
+    (h1 : -1 < a) (h2 : a < 1) : futSubmit a isBuy e posQty oldQty tc = [] := by
+  have h0 : R.truncI a = 0 := by
+    unfold R.truncI
+    split
+    · have : (-a).floor = 0 := by
+        rw [floor_eq, Int.floor_eq_iff]; constructor <;> norm_num <;> linarith
+      omega
+    · rw [floor_eq, Int.floor_eq_iff]; constructor <;> norm_num <;> linarith
+  unfold futSubmit futSubmitLegs
+  rw [h0]; rfl
+
+/-- **no created futures leg has quantity zero** -/
+theorem fut_submit_no_zero_leg (a : R) (isBuy : Bool) (e : Effect) (posQty oldQty tc : Int) :
+    ∀ l ∈ futSubmit a isBuy e posQty oldQty tc, l.qty ≠ 0 := by
+  intro l hl
+  unfold futSubmit futSubmitLegs at hl
+  split at hl
+  · simp at hl
+  · rename_i hne
+    cases e <;> simp only at hl
+    all_goals (try split at hl) <;> (try split at hl) <;> (try split at hl) <;>
+      simp only [List.mem_cons, List.mem_append, List.not_mem_nil, or_false, false_or] at hl
+    all_goals first
+      | (rcases hl with hl | hl <;> subst hl <;> simp only <;> omega)
+      | (subst hl; simp only; omega)
+
+/-- non-vacuity: 2.5 lots open 2; 0.5 lots nothing -/
+example : futSubmit (5/2) true .open_ 0 0 0 = [⟨true, .open_, 2⟩] ∧ futSubmit (1/2) true .open_ 0 0 0 = [] := by
+  constructor <;> decide +kernel
+
 /-- non-vacuity: 10 000 at price 12.34 with fee max(5, 0.08 %): 800 shares (800·12.34 + 7.8976 = 9879.90 ≤ 10000; 900 is too much) -/
 example : orderValue ⟨false, 100⟩ 10000 12.34 50000 0 0 (fun a => R.pymax ((a : Rat) * 12.34 * (8/10000)) 5) = some (true, 800) := by
   decide +kernel
